@@ -753,6 +753,27 @@ def rule_nldf_plan(chk, cx):
             for i, d in enumerate(decl):
                 cx.expect("nldf-deg", res, where, feat.rows[i], d, "feature %s" % names[i], ST, "NLDFSettingsVI.get_feat_usps",
                           "declared power of feature %s, rho_mult=%s" % (names[i], mult), ef.lineno)
+            # the ij settings declare their i block with a copy of the same code: it must agree feature by feature
+            js = str_table(cx, "ALLOWED_J_SPECS")[:1]
+            jp = lst(lst(*(th.items + ([sym("erf")] if js[0] == "se_erf_rinv" else []))))
+            stij = s.new(ST, "NLDFSettingsVIJ", K(level), th, K(mult), KS(i0), KS(i1), lst(*dots), KS(js), jp)
+            if not isinstance(stij, Obj):
+                raise core.AnalysisError("NLDFSettingsVIJ: constructor could not be interpreted")
+            dij = declared_list(s.call(stij, "get_feat_usps").value, "NLDFSettingsVIJ.get_feat_usps")
+            fij = s.hooks.method_of(stij, "get_feat_usps").fdef
+            if len(dij) != len(decl) + len(js):
+                chk.violation("nldf-deg", ST, "NLDFSettingsVIJ.get_feat_usps", "length of the ij power list", fij.lineno,
+                              "NLDFSettingsVIJ declares %d powers for %d j + %d i features" % (len(dij), len(js), len(decl)))
+            else:
+                for i, (a_, b_) in enumerate(zip(dij[len(js):], decl)):
+                    inst = "NLDFSettingsVIJ(%s,%s) i-block feature %s" % (level, mult, names[i])
+                    if a_ == b_:
+                        chk.ok("nldf-deg", inst + " declared as in NLDFSettingsVI")
+                    else:
+                        chk.violation("nldf-deg", ST, "NLDFSettingsVIJ.get_feat_usps",
+                                      "declared power of i-block feature %s, rho_mult=%s" % (names[i], mult), fij.lineno,
+                                      "the ij settings declare power %s for the version-i feature %s, the i settings "
+                                      "declare %s for the same feature" % (a_, names[i], b_), instance=inst)
     chk.floor("nldf-deg", 20, "convolved function + l=0 rows + l=1 dots over level x rho_mult")
 
 
@@ -933,12 +954,15 @@ def mutants(tree):
         Mutant("revert 8eeb341: l=1 dot powers add the rho_mult power once", ST,
                "usps.append(nmult * usp0 + SPEC_USPS[spec1] + SPEC_USPS[spec2])",
                "usps.append(usp0 + SPEC_USPS[spec1] + SPEC_USPS[spec2])", expect="nldf-deg"),
+        Mutant("revert 8eeb341 in the ij settings only", ST,
+               "usps.append(nmult * usp0 + SPEC_USPS[spec1] + SPEC_USPS[spec2])",
+               "usps.append(usp0 + SPEC_USPS[spec1] + SPEC_USPS[spec2])", count=2, expect="nldf-deg"),
         Mutant("revert af610ee: _cache_ld_vectors loops over nk1", PL,
                "for i in range(self.settings.nd1):\n            self._cached_ld_data.append",
                "for i in range(self.settings.nk1):\n            self._cached_ld_data.append", expect="fl-deg"),
-        Mutant("FracLapl plan: l1 dot contracts the ld cache", PL,
+        Mutant("FracLapl plan: l1 dot contracts vector k with itself", PL,
                '"sxg,sxg->sg", self._cached_l1_data[j], self._cached_l1_data[k]',
-               '"sxg,sxg->sg", self._cached_ld_data[j], self._cached_l1_data[k]', expect="fl-deg"),
+               '"sxg,sxg->sg", self._cached_l1_data[k], self._cached_l1_data[k]', expect="fl-deg"),
         Mutant("rho_mult=expnt multiplies by the exponent twice", PL, "            a[:] *= rho\n            return a, da_tuple",
                "            a[:] *= rho * a\n            return a, da_tuple", expect="nldf-deg"),
         Mutant("LDA exchange rho^(4/3) -> rho^(1/3)", BL, "e[:] += LDA_FACTOR * rho ** (4.0 / 3)\n",
